@@ -35,6 +35,7 @@ type gluelayerOciCase struct {
 	Rebuild   bool    `json:"rebuild,omitempty"` // an earlier, larger build of the same architectures shares the temp dir
 	Tarball   bool    `json:"tarball,omitempty"`
 	BuildDate string  `json:"build_date,omitempty"`
+	Base      bool    `json:"base,omitempty"` // contents.baseimage (oci_e2e_base.go)
 }
 
 type gluelayerOciSuite struct{}
@@ -105,6 +106,9 @@ func gluelayerSetArchs(r *Rng, c *ImgCase, archs []string) {
 }
 
 func (gluelayerOciSuite) Gen(r *Rng, i int, tier string) any {
+	if i%9 == 4 {
+		return gluelayerGenBase(r)
+	}
 	c := gluelayerOciCase{Img: genImageCase(r)}
 	img := &c.Img
 	switch r.Intn(10) {
@@ -153,6 +157,10 @@ func (gluelayerOciSuite) Gen(r *Rng, i int, tier string) any {
 		}
 		img.Pkgs = append(img.Pkgs, gluelayerS6Pkg())
 		how = append(how, "service-bundle entrypoint")
+	}
+	if r.Chance(30) {
+		ic.VCSUrl = Pick(r, []string{"https://github.com/org/repo@0123456789abcdef0123456789abcdef01234567", "git+ssh://example.test/r.git@deadbeef", "https://example.test/no-revision"})
+		how = append(how, "vcs-url")
 	}
 	c.How = strings.Join(how, "; ")
 	c.Rebuild = r.Chance(30)
@@ -317,6 +325,9 @@ func (gluelayerOciSuite) Run(raw json.RawMessage) []Step {
 	var c gluelayerOciCase
 	if err := json.Unmarshal(raw, &c); err != nil {
 		panic(err)
+	}
+	if c.Base {
+		return gluelayerRunBase(c)
 	}
 	img := c.Img
 	pkgs := append([]SPkg(nil), img.Pkgs...)
